@@ -46,6 +46,9 @@ FEATURES = {
     "class-bases-meta": ["class QM(type):", "    pass", "class Q3(dict, metaclass=QM):", "    b = 2", "print('cbm', type(Q3).__name__, Q3.b, Q3.__mro__[1].__name__)"],
     "class-init-subclass": ["class Q4:", "    def __init_subclass__(c4, **kw):", "        c4.seen = sorted(kw)", "class Q5(Q4, tag=1):", "    pass", "print('cis', Q5.seen)"],
     "super0": ["class Q6:", "    def m(s6):", "        return 'base'", "class Q7(Q6):", "    def m(s7):", "        return 'sub+' + super().m()", "print('super', Q7().m())"],
+    # the *object* a zero-argument super() call gives, in and outside a loop: with a user-defined `super` it is the user's call
+    "super0-object": ["class Q6b:", "    def m(s6):", "        for _ in range(1):", "            r = type(super()).__name__", "        return r, type(super()).__name__",
+                      "    @classmethod", "    def c(c6):", "        return type(super()).__name__", "print('super-obj', Q6b().m(), Q6b.c())"],
     "import": ["import math", "print('imp', math.floor(2.5))"],
     "import-dotted": ["import os.path", "print('impd', os.path.basename('a/b'))"],
     "import-as": ["import json as q8", "print('impa', q8.dumps([1]))"],
